@@ -15,16 +15,17 @@
 (* again, forwarding hops+1): the negative control the invariants must catch. *)
 EXTENDS Integers, FiniteSets, Sequences, TLC
 
-CONSTANTS Node, Active,      \* Active \subseteq Node: members listed "active"
+CONSTANTS Node, Active,
+          Class,             \* cache classes (each purge and each flush message names one)      \* Active \subseteq Node: members listed "active"
           MaxHops,           \* 4 in the code
           MaxPurges,         \* bound on origin purges (model checking only)
           MaxLoss,           \* bound on lost messages
           MaxFill,
           Impl               \* "local" (as written) | "relay" (negative control)
 
-VARIABLES present,   \* [Node -> BOOLEAN]   the cache holds something on that node
-          tasks,     \* broadcaster goroutines: [id, from, todo (set of peers not yet contacted), hops, root]
-          inflight,  \* messages awaiting the peer's answer: [task, from, to, hops, root]
+VARIABLES present,   \* [Node -> [Class -> BOOLEAN]]   that cache holds something on that node
+          tasks,     \* broadcaster goroutines: [id, from, c, todo (set of peers not yet contacted), hops, root]
+          inflight,  \* messages awaiting the peer's answer: [task, from, to, c, hops, root]
           sent,      \* history: [root purge -> number of flush messages sent on its behalf]
           discards,  \* history: [root -> set of nodes that discarded because of it]
           orig,      \* history: [root -> node where the purge originated | ""]
@@ -36,49 +37,49 @@ vars == <<present, tasks, inflight, sent, discards, orig, relays, npurge, nloss,
 
 PeerList(n) == Active \ {n}     \* the other members listed active (contacted in the listing's order: any order)
 
-Obs(a, n, to, h, r, p) == last' = [act |-> a, n |-> n, to |-> to, hops |-> h, root |-> r, purged |-> p]
+Obs(a, n, to, c, h, r, p) == last' = [act |-> a, n |-> n, to |-> to, c |-> c, hops |-> h, root |-> r, purged |-> p]
 
-Init == /\ present = [n \in Node |-> FALSE]
+Init == /\ present = [n \in Node |-> [c \in Class |-> FALSE]]
         /\ tasks = {} /\ inflight = {}
         /\ sent = [p \in 1..MaxPurges |-> 0]
         /\ discards = [p \in 1..MaxPurges |-> {}]
         /\ orig = [p \in 1..MaxPurges |-> ""]
         /\ relays = 0 /\ npurge = 0 /\ nloss = 0 /\ nfill = 0 /\ ntask = 0
-        /\ last = [act |-> "Init", n |-> "", to |-> "", hops |-> 0, root |-> 0, purged |-> FALSE]
+        /\ last = [act |-> "Init", n |-> "", to |-> "", c |-> "", hops |-> 0, root |-> 0, purged |-> FALSE]
 
-Fill(n) == /\ nfill < MaxFill /\ ~present[n]
-           /\ present' = [present EXCEPT ![n] = TRUE]
+Fill(n, c) == /\ nfill < MaxFill /\ ~present[n][c]
+           /\ present' = [present EXCEPT ![n][c] = TRUE]
            /\ nfill' = nfill + 1
-           /\ Obs("Fill", n, "", 0, 0, FALSE)
+           /\ Obs("Fill", n, "", c, 0, 0, FALSE)
            /\ UNCHANGED <<tasks, inflight, sent, discards, orig, relays, npurge, nloss, ntask>>
 
 (* caches.Purge(id) on node n *)
-OriginPurge(n) ==
+OriginPurge(n, c) ==
   /\ npurge < MaxPurges
-  /\ present' = [present EXCEPT ![n] = FALSE]
+  /\ present' = [present EXCEPT ![n][c] = FALSE]
   /\ npurge' = npurge + 1 /\ ntask' = ntask + 1
-  /\ tasks' = tasks \cup {[id |-> ntask + 1, from |-> n, todo |-> PeerList(n), hops |-> 1, root |-> npurge + 1]}
+  /\ tasks' = tasks \cup {[id |-> ntask + 1, from |-> n, c |-> c, todo |-> PeerList(n), hops |-> 1, root |-> npurge + 1]}
   /\ discards' = [discards EXCEPT ![npurge + 1] = @ \cup {n}]
   /\ orig' = [orig EXCEPT ![npurge + 1] = n]
-  /\ Obs("OriginPurge", n, "", 0, npurge + 1, TRUE)
+  /\ Obs("OriginPurge", n, "", c, 0, npurge + 1, TRUE)
   /\ UNCHANGED <<inflight, sent, relays, nloss, nfill>>
 
 (* the broadcaster sends to its next peer and waits (one request in flight per broadcaster) *)
 SendTo(t, to) ==
   /\ t \in tasks /\ to \in t.todo
   /\ ~\E m \in inflight : m.task = t.id
-  /\ inflight' = inflight \cup {[task |-> t.id, from |-> t.from, to |-> to, hops |-> t.hops, root |-> t.root]}
+  /\ inflight' = inflight \cup {[task |-> t.id, from |-> t.from, to |-> to, c |-> t.c, hops |-> t.hops, root |-> t.root]}
   /\ tasks' = (tasks \ {t}) \cup {[t EXCEPT !.todo = @ \ {to}]}
   /\ sent' = [sent EXCEPT ![t.root] = @ + 1]
   /\ relays' = IF t.hops > 1 THEN relays + 1 ELSE relays
-  /\ Obs("Send", t.from, to, t.hops, t.root, FALSE)
+  /\ Obs("Send", t.from, to, t.c, t.hops, t.root, FALSE)
   /\ UNCHANGED <<present, discards, orig, npurge, nloss, nfill, ntask>>
 
 Send(t) == \E to \in t.todo : SendTo(t, to)
 
 Finish(t) == /\ t \in tasks /\ t.todo = {} /\ ~\E m \in inflight : m.task = t.id
              /\ tasks' = tasks \ {t}
-             /\ Obs("Finish", t.from, "", 0, t.root, FALSE)
+             /\ Obs("Finish", t.from, "", t.c, 0, t.root, FALSE)
              /\ UNCHANGED <<present, inflight, sent, discards, orig, relays, npurge, nloss, nfill, ntask>>
 
 (* FlushCacheHandler on m.to *)
@@ -87,13 +88,13 @@ Deliver(m) ==
   /\ inflight' = inflight \ {m}
   /\ IF m.hops > MaxHops
        THEN /\ UNCHANGED <<present, discards, tasks, ntask>>
-            /\ Obs("Deliver", m.to, m.from, m.hops, m.root, FALSE)
-       ELSE /\ present' = [present EXCEPT ![m.to] = FALSE]
+            /\ Obs("Deliver", m.to, m.from, m.c, m.hops, m.root, FALSE)
+       ELSE /\ present' = [present EXCEPT ![m.to][m.c] = FALSE]
             /\ discards' = [discards EXCEPT ![m.root] = @ \cup {m.to}]
-            /\ Obs("Deliver", m.to, m.from, m.hops, m.root, TRUE)
+            /\ Obs("Deliver", m.to, m.from, m.c, m.hops, m.root, TRUE)
             /\ IF Impl = "relay"     \* pre-fix receiver: Purge => OnPurge => broadcast again
                  THEN /\ ntask' = ntask + 1
-                      /\ tasks' = tasks \cup {[id |-> ntask + 1, from |-> m.to, todo |-> PeerList(m.to),
+                      /\ tasks' = tasks \cup {[id |-> ntask + 1, from |-> m.to, c |-> m.c, todo |-> PeerList(m.to),
                                                hops |-> m.hops + 1, root |-> m.root]}
                  ELSE UNCHANGED <<tasks, ntask>>
   /\ UNCHANGED <<sent, orig, relays, npurge, nloss, nfill>>
@@ -101,21 +102,21 @@ Deliver(m) ==
 Lose(m) == /\ m \in inflight /\ nloss < MaxLoss
            /\ inflight' = inflight \ {m}
            /\ nloss' = nloss + 1
-           /\ Obs("Lose", m.to, m.from, m.hops, m.root, FALSE)
+           /\ Obs("Lose", m.to, m.from, m.c, m.hops, m.root, FALSE)
            /\ UNCHANGED <<present, tasks, sent, discards, orig, relays, npurge, nfill, ntask>>
 
 (* a flush request that did not come from a broadcaster of this model: an older build, a hand-written
    request, or a relayed one -- carries any hop count; the receiver applies the same rule and never sends *)
-Foreign(n, h) ==
+Foreign(n, c, h) ==
   /\ nfill < MaxFill            \* (bounded like Fill for model checking)
   /\ nfill' = nfill + 1
   /\ IF h > MaxHops
-       THEN /\ UNCHANGED present /\ Obs("Foreign", n, "", h, 0, FALSE)
-       ELSE /\ present' = [present EXCEPT ![n] = FALSE] /\ Obs("Foreign", n, "", h, 0, TRUE)
+       THEN /\ UNCHANGED present /\ Obs("Foreign", n, "", c, h, 0, FALSE)
+       ELSE /\ present' = [present EXCEPT ![n][c] = FALSE] /\ Obs("Foreign", n, "", c, h, 0, TRUE)
   /\ UNCHANGED <<tasks, inflight, sent, discards, orig, relays, npurge, nloss, ntask>>
 
-Next == \/ \E n \in Node : Fill(n) \/ OriginPurge(n)
-        \/ \E n \in Node, h \in 0..(MaxHops + 2) : Foreign(n, h)
+Next == \/ \E n \in Node, c \in Class : Fill(n, c) \/ OriginPurge(n, c)
+        \/ \E n \in Node, c \in Class, h \in 0..(MaxHops + 2) : Foreign(n, c, h)
         \/ \E t \in tasks : Send(t) \/ Finish(t)
         \/ \E m \in inflight : Deliver(m) \/ Lose(m)
 
